@@ -304,12 +304,12 @@ func ruleC33(c *Ctx) {
 				okApp = false
 			}
 		}
-		c.Require("valueorigin", fname(lh)+": every appended header comes from the chain's main-chain accessors", okApp && napp >= 3, "%d append(s)", napp)
+		c.Require("valueorigin", fname(lh)+": every appended header comes from the chain's main-chain accessors", okApp && napp >= 1, "%d append(s)", napp)
 		// loop bound
 		okb := false
 		for _, b := range lh.Blocks {
 			if iff, ok := b.Instrs[len(b.Instrs)-1].(*ssa.If); ok {
-				if bo, ok := iff.Cond.(*ssa.BinOp); ok && bo.Op.String() == "<" && mentions(bo.Y, paramN(4), 2, nil) {
+				if bo, ok := iff.Cond.(*ssa.BinOp); ok && (bo.Op.String() == "<" && mentions(bo.Y, paramN(4), 2, nil) || bo.Op.String() == ">" && mentions(bo.X, paramN(4), 2, nil)) {
 					if hh, body := innermostLoop(b); hh == b && len(body) > 1 {
 						okb = true
 					}
